@@ -3,7 +3,7 @@
 
 use crate::http1::{ParseError, Resp, RespParser};
 use crate::net::{ClientEnd, Net};
-use crate::plan::{ConnKind, ConnPlan, Step};
+use crate::plan::{ConnPlan, Step};
 use crate::world::{Ev, World};
 use std::net::SocketAddr;
 use std::sync::{Arc, Mutex};
